@@ -1357,6 +1357,7 @@ func runC07(c *Check) {
 	ruleCachePathsAgree(c, p)
 	c.Doc("C07-R7", "VP+GA: the DA heights stored per block come from the mark of the part they describe: the header's from the header cache, the data's from the data cache (the header's only for a block without transactions).")
 	ruleStoredDAHeightsProvenance(c, p)
+	ruleCachesSavedAfterJoin(c, p, "C07-R8")
 }
 
 // ruleStoredDAHeightsProvenance (C07-R7): in the function that stores the per-block DA heights
@@ -1661,5 +1662,41 @@ func ruleCachePathsAgree(c *Check, p *Prog) {
 	}
 	if len(sp) < 2 {
 		c.Unk(rule, "cache-paths", "", "", fmt.Sprintf("anchor lost: %d caches saved", len(sp)))
+	}
+}
+
+// ruleCachesSavedAfterJoin (C07-R8): the DA-inclusion marks live in the caches and are written to
+// disk once, at shutdown. A submission that is acknowledged while the workers wind down still sets
+// its marks and moves the persisted last-submitted height. If the caches were saved before the
+// workers ended, those marks are lost while the watermark says "submitted": after the restart the
+// heights are neither re-submitted nor ever reported DA-included. So the node saves the caches
+// only after it has joined every worker.
+func ruleCachesSavedAfterJoin(c *Check, p *Prog, rule string) {
+	c.Doc(rule, "EO: the node saves the block manager's caches (which carry the DA-inclusion marks) only after it has waited for all its workers: no mark set by a submission acknowledged during shutdown is missing from the saved cache while the persisted watermark already counts it.")
+	n := 0
+	for _, fn := range p.Funcs {
+		pk := fnPkg(fn)
+		if pk == nil || pk.Pkg.Path() != rootPath+"/node" || fn.Blocks == nil || fn.Parent() != nil {
+			continue
+		}
+		if !callsNamed(fn, func(nm string) bool { return nm == mgrM("SaveCache") }) {
+			continue
+		}
+		g := BuildECFG(p, fn, ExpandOpts{MaxDepth: 0})
+		c.NoteGraph(g)
+		saves := g.Select(IsCall(mgrM("SaveCache")))
+		joins := g.Select(IsCall("(*sync.WaitGroup).Wait"))
+		n++
+		inst := fnShort(fn) + " ⟂ caches saved after the workers were joined"
+		if len(joins) == 0 {
+			c.Bad(rule, inst, fnName(fn), p.InstrPos(saves[0].In), "the function saves the caches but never waits for the workers it started", nil)
+			continue
+		}
+		c.Decide(rule, inst, fnName(fn), p.InstrPos(saves[0].In), "SaveCache is reached only after WaitGroup.Wait",
+			"the caches can be saved while workers are still running: a DA-inclusion mark set by a submission that is acknowledged during shutdown is not in the saved cache, although the persisted last-submitted height counts it — after the restart that height is never re-submitted and never reported DA-included",
+			g, g.MustPrecede(nodeSet(joins), nodeSet(saves)))
+	}
+	if n == 0 {
+		c.Unk(rule, "anchor-count", "", "", "anchor lost: no function of the node package saves the block manager's caches")
 	}
 }
